@@ -101,6 +101,8 @@ class MemStream(trio.abc.HalfCloseableStream):
             await self._resume.wait()
             if self.closed:
                 raise trio.ClosedResourceError("stream closed locally")
+            if self.peer_reset_flag:
+                raise trio.BrokenResourceError("connection reset by peer")
         d = native_bytes(data)
         self.writes.append((trio.current_time(), len(d)))
         self.out.add(d)
@@ -184,6 +186,7 @@ def run_trio_session(app_factory: Callable, config: Optional[Config], actions: L
     obs: Dict[str, Any] = {"snaps": [], "handler_done": False, "handler_error": None, "closed_at": None, "alive": [], "flavour": "trio"}
     cfg = config or make_config()
     clock = trio.testing.MockClock()
+    final: Dict[str, Any] = {}
 
     async def settle() -> None:
         await trio.testing.wait_all_tasks_blocked()
@@ -253,10 +256,20 @@ def run_trio_session(app_factory: Callable, config: Optional[Config], actions: L
                 obs["closed_at"] = None if stream.closed_at is None else stream.closed_at - t0
                 obs["eof_sent"] = stream.eof_sent
                 obs["alive_before_cancel"] = not obs["handler_done"]
+                final.update(done=obs["handler_done"], at=obs.get("handler_done_at"), err=obs["handler_error"])
+                # hypercorn shields its writes from cancellation: a write still parked on a peer that never
+                # reads again would keep trio.run() from returning, so the stream is broken before the teardown
+                stream.paused = False
+                stream.peer_reset()
                 nursery.cancel_scope.cancel()
         except BaseException as e:  # noqa: BLE001
             if obs["handler_error"] is None and not isinstance(e, trio.Cancelled):
                 obs["handler_error"] = e
 
     trio.run(main, clock=clock)
+    if final:
+        # what happened during the forced teardown is not part of the observation
+        obs["handler_done"], obs["handler_error"] = final["done"], final["err"]
+        if final["at"] is None:
+            obs.pop("handler_done_at", None)
     return obs
